@@ -1,10 +1,11 @@
 /-
 Model.Cache — abstract protocol of `calendar.NewLunarYear`: a mutex-protected single-slot cache in
 front of a pure computation. Threads execute
-    lock.Lock(); if CACHE_YEAR == nil || CACHE_YEAR.year != y { year = build(y); CACHE_YEAR = year } else { year = CACHE_YEAR }; lock.Unlock(); return year
-as the atomic steps `call`, `acquire`, `body`, `release`, `ret`, interleaved arbitrarily.
-`build` is the pure function `compute` (assumed not to panic — the implementation unlocks without
-`defer`; the history sweeps report any year for which it does).
+    lock.Lock(); defer lock.Unlock(); if CACHE_YEAR == nil || CACHE_YEAR.year != y { year = build(y); CACHE_YEAR = year } else { year = CACHE_YEAR }; return year
+as the atomic steps `call`, `acquire`, `hit`/`miss`/`crash`, `release`, `ret`, interleaved arbitrarily.
+`build` is the pure function `compute`; for an out-of-range argument the real `compute()` can panic:
+after the `fix:` commit the lock is released by `defer`, which is the step `crash` (lock released, cache
+untouched, nothing returned; the caller recovers).
 The tie to the source is the regenerated `Gen.Facts.newLunarYearShape` / `cacheRefs` (see Props/C09).
 -/
 namespace Model.Cache
@@ -38,6 +39,8 @@ inductive Step {T : Type} (compute : Int → T) : State T → State T → Prop w
       Step compute s { s with pc := setPc s t (.holding y v) }
   | miss (s : State T) (t : Nat) (y : Int) : s.pc t = .inside y → (∀ v, s.cache ≠ some (y, v)) →
       Step compute s { s with cache := some (y, compute y), pc := setPc s t (.holding y (compute y)) }
+  | crash (s : State T) (t : Nat) (y : Int) : s.pc t = .inside y →
+      Step compute s { s with lock := none, pc := setPc s t .idle }
   | release (s : State T) (t : Nat) (y : Int) (v : T) : s.pc t = .holding y v →
       Step compute s { s with lock := none, pc := setPc s t (.done y v) }
   | ret (s : State T) (t : Nat) (y : Int) (v : T) : s.pc t = .done y v →
